@@ -138,7 +138,7 @@ def workload(name, rng, params, length=None, d=None):
     if name == "NNDVI":
         # k_nn <= 5 needs at least 5 distinct pooled points: no integer-valued or constant-column batches here
         return gen.batch_sequence(rng, nb, d, size=(8, 30), shift_p=0.4, dup_p=0.2, integer_p=0.0, const_p=0.0)
-    if name in ("HDDDM", "CDBD") and rng.random() < 0.15:
+    if name in ("HDDDM", "CDBD", "KdqTreeBatch") and rng.random() < 0.15:
         # minimal batches (3 rows: the smallest reference detect_batch=1 can still split into a reference and a proxy batch)
         return gen.batch_sequence(rng, nb, d, size=(3, 7), shift_p=0.35, dup_p=0.0, const_p=0.0)
     return gen.batch_sequence(rng, nb, d, size=(8, 70), shift_p=0.35)
